@@ -11,7 +11,7 @@ LEVEL = "model_checking"
 
 def jobs(ctx, mode):
     specs = roundtrip.all_specs()
-    k = 3 if ctx.thorough else 1
+    k = 3 if ctx.thorough else 2
     out = []
     for name, spec in specs.items():
         for case in dbe.cases(spec.space, k):
